@@ -40,6 +40,11 @@ def render_plan(calls, t):
         body = C.fmt_call(*c)
         if t.chance(1, 6):
             body = body.upper()
+        if len(c[1]) >= 1 and t.chance(1, 8):
+            # a long step wrapped over two lines (the arguments continue on the next line)
+            k = 1 + t.draw(len(c[1]))
+            parts = body[1:-1].split(" ")
+            body = "(" + " ".join(parts[:k]) + "\n      " + " ".join(parts[k:]) + ")"
         if style == 0:
             lines.append(body)
         elif style == 1:
@@ -178,7 +183,7 @@ def check_conversion(ctx, W, S0, plan, final_seq, agents, validate, ops):
     ctx.sample = {"sequential": [C.fmt_call(*c) for c in plan], "agents": agents, "validate_concurrency": validate,
                   "joint": [[("nop" if c is None else C.fmt_call(*c)) for c in s] for s in jp]}
     ctx.nontrivial = any(sum(1 for c in s if c) >= 2 for s in jp)
-    ctx.probes[f"max_members_{max(sum(1 for c in s if c) for s in jp)}"] += 1
+    ctx.probes[f"max_members_{max((sum(1 for c in s if c) for s in jp), default=0)}"] += 1
     # ---- history checks
     flat = [c for s in jp for c in s if c is not None]
     want_ms = Counter((c[0], tuple(c[1])) for c in plan)
